@@ -286,7 +286,13 @@ func genOp(c *vcore.Ctx, sh *s1Shape, used map[int]bool) *s1op {
 	case "ping":
 		return &s1op{kind: "ping"}
 	case "reset":
-		return &s1op{kind: "reset"}
+		o := &s1op{kind: "reset"}
+		if src.Bool(1, 3, "reset_undeletable") {
+			// what a program may leave behind: an entry Reset cannot remove (here: inside a read-only
+			// directory; in a real container e.g. a busy mount point): Reset fails, as an error of that call
+			o.stage = "undeletable"
+		}
+		return o
 	case "delete":
 		p := filepath.Join(s1Root, src.Pick("deldir", "w", "tmp", "data"), fmt.Sprintf("f%d", src.Int(6, "dname")))
 		if src.Bool(1, 6, "delbad") {
@@ -341,11 +347,12 @@ func (o *s1op) String() string {
 
 // s1Sim runs one history in one bubble and evaluates the oracles of property prop.
 type s1Sim struct {
-	c     *vcore.Ctx
-	sh    *s1Shape
-	w     *s1world
-	viol  *vcore.Violation
-	files []*os.File
+	c             *vcore.Ctx
+	sh            *s1Shape
+	w             *s1world
+	viol          *vcore.Violation
+	files         []*os.File
+	lockedPlanted bool
 }
 
 // hostGoroutines counts goroutines executing methods of the host-side environment object.
@@ -621,6 +628,14 @@ func (s *s1Sim) run() {
 		if op.kind == "open" || op.kind == "delete" {
 			plantObjects(c)
 		}
+		if op.kind == "reset" && op.stage == "undeletable" {
+			d := filepath.Join(s1Root, "w", fmt.Sprintf("locked%d", i))
+			os.MkdirAll(filepath.Join(d, "inner"), 0777)
+			os.Chmod(d, 0555)
+			s.lockedPlanted = true
+			c.Logf("plant undeletable %s", strings.TrimPrefix(d, s1Root))
+			c.Fault("reset_fails_in_container")
+		}
 		if op.kind == "open" {
 			op.pre = nil
 			for _, it := range op.open {
@@ -643,7 +658,11 @@ func (s *s1Sim) run() {
 		stray := len(w.c2h.inflight) + len(w.c2h.delivered)
 		w.mu.Unlock()
 		if stray != 0 && !w.transportLost {
-			s.fail("stray_reply", op.site(), "%d container->host message(s) pending when %s starts: a reply nobody waited for", stray, op)
+			culprit := op
+			if i > 0 {
+				culprit = ops[i-1]
+			}
+			s.fail("stray_reply", culprit.site(), "%d container->host message(s) pending when %s starts: a reply nobody waited for (left by %s)", stray, op, culprit)
 			break
 		}
 		ctx, cancel := context.WithCancel(context.Background())
@@ -793,6 +812,15 @@ func (s *s1Sim) check(i int, op *s1op, out *s1res, wasLost, cancelled, epilogue 
 	}
 	switch op.kind {
 	case "ping", "reset":
+		if op.kind == "reset" && s.lockedPlanted && op.stage != "undeletable" {
+			return // an entry planted earlier in this history is still undeletable: either outcome is this call's own
+		}
+		if op.stage == "undeletable" {
+			if out.err == nil {
+				s.fail("wrong_answer", "reset/undeletable", "Reset reported success although an entry could not be removed")
+			}
+			return
+		}
 		if out.err != nil {
 			s.fail("unexpected_error", site, "%s failed: %v", op, out.err)
 		}
